@@ -89,7 +89,8 @@ package gorp
 //@ func (d *delta[K, V]) merge(committedKeys []K, values []V) (res []K)
 //@   tparams K Key, V comparable
 //@   requires DI(d)
-//@   ensures  forall k K :: __in(d.state, k) ==> (inKeys(res, k) == (!d.state[k].deleted && inVals(values, d.state[k].value)))
+//@   ensures  forall k K :: __in(d.state, k) && inKeys(res, k) ==> !d.state[k].deleted && inVals(values, d.state[k].value)
+//@   ensures  forall k K :: __in(d.state, k) && !d.state[k].deleted && inVals(values, d.state[k].value) ==> inKeys(res, k)
 //@   ensures  forall k K :: !__in(d.state, k) ==> (inKeys(res, k) == inKeys(committedKeys, k))
 //@   modifies nothing
 //@   loop 0 modifies result
@@ -98,6 +99,27 @@ package gorp
 //@   loop 1 modifies result
 //@   loop 1 invariant result != nil
 //@   loop 1 invariant forall k K :: __in(result, k) == ((inKeys(committedKeys, k) && !(__in(d.state, k) && (d.state[k].deleted || !inVals(values, d.state[k].value)))) || (exists j int :: 0 <= j && j < __ri(0) && inF(d, values[j], k)))
+//@   loop 1 invariant forall k K, j int :: 0 <= j && j < __ri(0) && __in(d.state, k) && !d.state[k].deleted && d.state[k].value == values[j] ==> __in(result, k)
 //@   loop 2 modifies result
 //@   loop 2 invariant result != nil
+//@   loop 2 invariant forall k K, j int :: 0 <= j && j < __ri(0) && __in(d.state, k) && !d.state[k].deleted && d.state[k].value == values[j] ==> __in(result, k)
 //@   loop 2 invariant forall k K :: __in(result, k) == ((inKeys(committedKeys, k) && !(__in(d.state, k) && (d.state[k].deleted || !inVals(values, d.state[k].value)))) || (exists j int :: 0 <= j && j < __ri(0) && inF(d, values[j], k)) || __seen(k))
+
+//@ # the identity of the transaction a Tx handle belongs to (nil outside a transaction)
+//@ pure func (tx Tx) txIdentity() *txState
+//@ spec func sameKeys[K Key](a []K, b []K) bool = forall k K :: inKeys(a, k) == inKeys(b, k)
+
+//@ # transactional visibility: a query resolves against committed keys overlaid with the staged
+//@ # state of ITS OWN transaction only; no other transaction's delta is consulted, and outside a
+//@ # transaction (or with nothing staged) the committed keys are returned as they are
+//@ func (o *deltaOverlay[K, V]) resolve(tx Tx, committed []K, values []V) (res []K)
+//@   tparams K Key, V comparable
+//@   requires forall s *txState :: __in(o.txDeltas, s) ==> o.txDeltas[s] != nil && DI(o.txDeltas[s])
+//@   ensures  tx.txIdentity() == nil || !__in(o.txDeltas, tx.txIdentity()) || o.txDeltas[tx.txIdentity()].isEmpty() ==> sameKeys(res, committed)
+//@   ensures  tx.txIdentity() != nil && __in(o.txDeltas, tx.txIdentity()) ==>
+//@              (forall k K :: __in(o.txDeltas[tx.txIdentity()].state, k) && inKeys(res, k) ==> !o.txDeltas[tx.txIdentity()].state[k].deleted && inVals(values, o.txDeltas[tx.txIdentity()].state[k].value))
+//@   ensures  tx.txIdentity() != nil && __in(o.txDeltas, tx.txIdentity()) ==>
+//@              (forall k K :: __in(o.txDeltas[tx.txIdentity()].state, k) && !o.txDeltas[tx.txIdentity()].state[k].deleted && inVals(values, o.txDeltas[tx.txIdentity()].state[k].value) ==> inKeys(res, k))
+//@   ensures  tx.txIdentity() != nil && __in(o.txDeltas, tx.txIdentity()) ==>
+//@              (forall k K :: !__in(o.txDeltas[tx.txIdentity()].state, k) ==> (inKeys(res, k) == inKeys(committed, k)))
+//@   modifies nothing
